@@ -20,7 +20,9 @@ L(c)    == [t |-> "lit", c |-> c]
 V(n, k) == [t |-> "var", n |-> n, k |-> k]
 
 Digits == {"0", "1", "2", "3", "4", "5", "6", "7", "8", "9"}
-WordCh == Digits \cup {"a", "b", "c", "x", "y", "_"}
+Lower  == {"a", "b", "c", "d", "e", "f", "g", "h", "i", "j", "k", "l", "m", "n", "o", "p", "q", "r", "s", "t", "u", "v", "w", "x", "y", "z"}
+Upper  == {"A", "B", "C", "D", "E", "F", "G", "H", "I", "J", "K", "L", "M", "N", "O", "P", "Q", "R", "S", "T", "U", "V", "W", "X", "Y", "Z"}
+WordCh == Digits \cup Lower \cup Upper \cup {"_"}          \* \w over ASCII
 
 ClassOK(k, c, first) ==
   CASE k = "any"   -> c # "/"
